@@ -292,6 +292,28 @@ func runC11(c *Ctx) {
 		}
 		c.Check(fmt.Sprintf("%s#%s-after-verification", fname(isc), o.Name()), ci.Pos(), ok, ifelse(ok, "dominated by verifyAllSideChainBlocks == nil", "side-chain blocks are written (and may become canonical) without having been fully verified"))
 	}
+	// the side chain replaces the canonical one only when it is longer
+	for _, ci := range callsTo(isc, w.FuncObj("core", "BlockChain", "insertChain")) {
+		longer := false
+		for _, a := range atomsOf(factsAtInstr(ci)) {
+			if a.Kind != "cmp" {
+				continue
+			}
+			op := a.Op
+			if !a.Truth {
+				op = negateCmp(op)
+			}
+			cx, okx := stripConv(a.X).(*ssa.Call)
+			cy, oky := stripConv(a.Y).(*ssa.Call)
+			if okx && oky && calleeObj(cx) != nil && calleeObj(cy) != nil && calleeObj(cx).Name() == "NumberU64" && calleeObj(cy).Name() == "NumberU64" && op == token.GTR {
+				if callChainMentions(cy, "CurrentBlock") {
+					longer = true
+				}
+			}
+		}
+		c.sites++
+		c.Check(fmt.Sprintf("%s#reimport-only-if-longer@%s", fname(isc), siteOrdinal(isc, ci, "")), ci.Pos(), longer, ifelse(longer, "re-import (and so the reorganisation) is dominated by sideHead.Number > CurrentBlock().Number", "a side chain that is not longer than the canonical chain can replace it"))
+	}
 	var need []ssa.CallInstruction
 	names := map[string]bool{}
 	for _, ci := range callInstrs(vall) {
@@ -442,6 +464,7 @@ func c11Variants() []Variant {
 		{Name: "head-before-state-commit", File: f, Old: "	//write\n	rawdb.WriteBlock(bc.db, block)\n\n	//db commit\n	root, valRoot, stakingRoot, err := state.Commit(true)", New: "	//write\n	rawdb.WriteBlock(bc.db, block)\n	bc.insert(block)\n\n	//db commit\n	root, valRoot, stakingRoot, err := state.Commit(true)", Rule: "C11.H1", Construct: "WriteBlockWithState"},
 		{Name: "staking-root-not-committed", File: f, Old: "map[string]common.Hash{\"state\": root, \"val\": valRoot, \"staking\": stakingRoot}", New: "map[string]common.Hash{\"state\": root, \"val\": valRoot}", Rule: "C11.H1", Construct: "triedb-commit-all-roots"},
 		{Name: "head-marker-from-write-without-state", File: f, Old: "	logging.Info(\"WriteBlockWithoutState.\", \"Height\", block.NumberU64(), \"Hash\", block.Hash().String())\n", New: "	rawdb.WriteHeadBlockHash(bc.db, block.Hash())\n	logging.Info(\"WriteBlockWithoutState.\", \"Height\", block.NumberU64(), \"Hash\", block.Hash().String())\n", Rule: "C11.H2", Construct: "WriteBlockWithoutState"},
+		{Name: "side-chain-not-longer", File: f, Old: "	if block.NumberU64() <= bc.CurrentBlock().NumberU64() {\n		logging.Error(\"Importing sidechain terminate.\"", New: "	if block.NumberU64() < bc.CurrentBlock().NumberU64() {\n		logging.Error(\"Importing sidechain terminate.\"", Rule: "C11.H4", Construct: "reimport-only-if-longer"},
 		{Name: "ignore-validate-state", File: f, Old: "		err = bc.Validator().ValidateState(block, parent, stateDb, result.Recs, result.UsedGas)\n		if err != nil {", New: "		err = bc.Validator().ValidateState(block, parent, stateDb, result.Recs, result.UsedGas)\n		if err != nil && result == nil {", Rule: "C11.H3", Construct: "write-after-validate-state"},
 	}
 }
